@@ -573,6 +573,140 @@ func (h *hist) reopen() error {
 	return h.record(fmt.Sprintf("HReopen %s %s %s", iw, hw, List(order)), "R("+strings.Trim(strings.Fields(iw)[0], "(")+","+hw+")")
 }
 
+// spendSome builds a signed transaction spending exactly uxs (one owner) to 1-2 outputs;
+// variant makes otherwise identical transactions differ. keepOwner sends part back to the owner.
+func (h *hist) spendSome(uxs coin.UxArray, headTime uint64, variant int, keepOwner bool) (coin.Transaction, bool, error) {
+	var coins, hours uint64
+	for _, ux := range uxs {
+		coins += ux.Body.Coins
+		x, err := ux.CoinHours(headTime)
+		if err != nil {
+			return coin.Transaction{}, false, nil
+		}
+		hours += x
+	}
+	if hours == 0 || coins < 4000 {
+		return coin.Transaction{}, false, nil
+	}
+	owner := uxs[0].Body.Address
+	other := h.w.Addrs[h.r.Intn(6)]
+	to := []cipher.Address{other}
+	cs := []uint64{coins}
+	hs := []uint64{hours / 2}
+	if keepOwner || h.r.Bool() {
+		part := (coins / 1000 / uint64(2+variant)) * 1000
+		if part == 0 {
+			part = 1000
+		}
+		to = []cipher.Address{other, owner}
+		cs = []uint64{part, coins - part}
+		hs = []uint64{hours / 4, hours / 4}
+		if to[0] == to[1] && cs[0] == cs[1] {
+			hs[1]++
+		}
+	} else {
+		hs[0] = hours/2 - uint64(variant)%(hours/2+1)
+	}
+	t, err := h.w.Spend(uxs, to, cs, hs)
+	return t, err == nil, err
+}
+
+// conflictPool puts conflicting or sweeping pending transactions into the pool:
+//   0: 2-3 transactions all spending the SAME output of an address that has further outputs
+//   1: pending transactions spending ALL outputs of an address (one per output, or one for all)
+//   2: an address receiving (change back to it) while two pending transactions spend one of its outputs
+// When no address has two spendable outputs, a block first splits one output into three.
+func (h *hist) conflictPool() error {
+	used, err := h.poolInputs()
+	if err != nil {
+		return err
+	}
+	sp, headTime, err := h.n.Spendable(nil)
+	if err != nil {
+		return h.genFail(err)
+	}
+	var multi, any []cipher.Address
+	for _, a := range h.w.Addrs {
+		if len(sp[a]) >= 2 {
+			multi = append(multi, a)
+		}
+		if len(sp[a]) >= 1 {
+			any = append(any, a)
+		}
+	}
+	if len(any) == 0 {
+		return nil
+	}
+	if len(multi) == 0 { // split one unused output of some address into three of the same address
+		a := any[h.r.Intn(len(any))]
+		ux := sp[a][0]
+		if used[ux.Hash()] || ux.Body.Coins < 9000 {
+			return nil
+		}
+		hrs, err := ux.CoinHours(headTime)
+		if err != nil || hrs == 0 {
+			return nil
+		}
+		c3 := (ux.Body.Coins / 3000) * 1000
+		t, err := h.w.Spend(coin.UxArray{ux}, []cipher.Address{a, a, a}, []uint64{c3, c3 + 1000, ux.Body.Coins - 2*c3 - 1000}, []uint64{hrs / 8, hrs/8 + 1, hrs/8 + 2})
+		if err != nil {
+			return err
+		}
+		h.dist.Add("pool:split_block")
+		return h.execBlock(coin.Transactions{t}, uint64(4000+h.r.Intn(20000)), "S")
+	}
+	a := multi[h.r.Intn(len(multi))]
+	uxs := sp[a]
+	mode := h.r.Intn(3)
+	var txns []coin.Transaction
+	switch mode {
+	case 0, 2:
+		k := 2 + h.r.Intn(2)
+		target := uxs[h.r.Intn(len(uxs))]
+		for i := 0; i < k; i++ {
+			t, ok, err := h.spendSome(coin.UxArray{target}, headTime, i, mode == 2)
+			if err != nil {
+				return err
+			}
+			if ok {
+				txns = append(txns, t)
+			}
+		}
+	default:
+		if h.r.Bool() {
+			for i := range uxs {
+				t, ok, err := h.spendSome(coin.UxArray{uxs[i]}, headTime, i, false)
+				if err != nil {
+					return err
+				}
+				if ok {
+					txns = append(txns, t)
+				}
+			}
+		} else {
+			t, ok, err := h.spendSome(uxs, headTime, 0, false)
+			if err != nil {
+				return err
+			}
+			if ok {
+				txns = append(txns, t)
+			}
+		}
+	}
+	n := 0
+	for _, t := range txns {
+		if _, _, _, err := h.n.V.InjectUserTransaction(t); err != nil {
+			return fmt.Errorf("InjectUserTransaction (conflict mode %d): %v", mode, err)
+		}
+		n++
+	}
+	if n == 0 {
+		return nil
+	}
+	h.dist.Add(fmt.Sprintf("pool:conflict_mode%d", mode))
+	return h.record("HPool", fmt.Sprintf("C%d.%d", mode, n))
+}
+
 // genFail: the generator could not even list the unspents through the API: observe
 // everything once more (the failing views are recorded) and end the history
 func (h *hist) genFail(err error) error {
@@ -616,7 +750,7 @@ func (h *hist) oneHistory(nblocks int) error {
 			c = 0
 		}
 		switch {
-		case c < 45: // block of fresh transactions and/or pool transactions
+		case c < 40: // block of fresh transactions and/or pool transactions
 			used, err := h.poolInputs()
 			if err != nil {
 				return err
@@ -670,7 +804,7 @@ func (h *hist) oneHistory(nblocks int) error {
 				return err
 			}
 			made++
-		case c < 70: // unconfirmed transaction
+		case c < 60: // unconfirmed transaction
 			used, err := h.poolInputs()
 			if err != nil {
 				return err
@@ -690,6 +824,10 @@ func (h *hist) oneHistory(nblocks int) error {
 			}
 			h.dist.Add("inject")
 			if err := h.record("HPool", "I"); err != nil {
+				return err
+			}
+		case c < 72: // pools with conflicting / sweeping pending transactions
+			if err := h.conflictPool(); err != nil {
 				return err
 			}
 		case c < 80: // a block that spends an output a pool transaction also spends
@@ -917,7 +1055,7 @@ func run(args []string) error {
 		}
 		hists = append(hists, List(h.steps))
 		hj = append(hj, map[string]interface{}{"history": i, "seed": f.Seed, "steps": len(h.steps), "ops": strings.Join(h.desc, " "),
-			"legend": "G genesis, Bn block of n txns, Xn block conflicting with a pool txn, I inject, F refresh, V remove-invalid, R(idx,hist) reopen after wiping, W1 block with wrapping output hours, T block far in the future"})
+			"legend": "G genesis, Bn block of n txns, Xn block conflicting with a pool txn, I inject, F refresh, V remove-invalid, Cm.n n pending txns (m=0 same output, 1 sweep of an address, 2 same output with change back), S split block, R(idx,hist) reopen after wiping, W1 block with wrapping output hours, T block far in the future"})
 		stale = append(stale, h.stale...)
 		staleJ = append(staleJ, h.staleJ...)
 		nq += h.nq
